@@ -180,7 +180,7 @@ pub fn lines_of(tp: &Template, full: bool) -> Vec<String> {
 }
 
 pub fn extra_lines() -> Vec<String> {
-    vec!["ld".into(), "ld 1, 2, 3".into(), "xyz 5".into(), "ld (5".into(), "ld 5)".into(), "ld [5)".into(), "nop 1".into(), "ld a a".into(), "ld , 5".into(), "inc (hl)".into(), "inc(hl )".into(), "ld .b 5".into(), "l d 5".into()]
+    vec!["ld".into(), "ld 1, 2, 3".into(), "xyz 5".into(), "ld (5".into(), "ld 5)".into(), "ld [5)".into(), "nop 1".into(), "ld a a".into(), "ld , 5".into(), "inc (hl)".into(), "inc(hl )".into(), "ld .b 5".into(), "l d 5".into(), "ld 5H".into(), "LD 5h".into(), "ld 5 H".into(), "ld AH".into(), "ld kH".into()]
 }
 
 /// program skeleton for one line: labels A (before) and B (after), constant k
